@@ -1,3 +1,10 @@
 import Vet.Props.C05
+#print axioms Vet.C05_closure_spec
+#print axioms Vet.C05_fromList_spec
 #print axioms Vet.C05_fromList_perm_dup
+#print axioms Vet.C05_fromList_closure
+#print axioms Vet.C05_minimal_denotes
+#print axioms Vet.C05_minimal_irredundant
+#print axioms Vet.C05_fromList_closed
+#print axioms Vet.C05_new_ok_iff
 #print axioms Vet.C05_fromList_append
